@@ -321,6 +321,9 @@ func safeEncode(f *fit.File, big bool) (out []byte, err error, p string) {
 // entry points by name, for the totality / fault checks
 var entryNames = []string{"Decode", "DecodeChained", "CheckIntegrity", "CheckIntegrityHeaderOnly", "DecodeHeader", "DecodeHeaderAndFileID"}
 
+// optionEntries: the decoding calls with decode options (the options register deferred work and change the record loop)
+var optionEntries = []string{"Decode+options", "DecodeChained+options", "Decode+unknownFields", "Decode+unknownMessages", "Decode+logger"}
+
 func callEntry(name string, r io.Reader) callResult {
 	switch name {
 	case "Decode":
@@ -335,6 +338,16 @@ func callEntry(name string, r io.Reader) callResult {
 		return safeDecodeHeader(r)
 	case "DecodeHeaderAndFileID":
 		return safeDecodeHeaderAndFileID(r)
+	case "Decode+options":
+		return safeDecode(r, fit.WithLogger(&nullLogger{}), fit.WithUnknownFields(), fit.WithUnknownMessages())
+	case "DecodeChained+options":
+		return safeDecodeChained(r, fit.WithUnknownMessages(), fit.WithUnknownFields(), fit.WithLogger(&nullLogger{}))
+	case "Decode+unknownFields":
+		return safeDecode(r, fit.WithUnknownFields())
+	case "Decode+unknownMessages":
+		return safeDecode(r, fit.WithUnknownMessages())
+	case "Decode+logger":
+		return safeDecode(r, fit.WithLogger(&nullLogger{}))
 	}
 	panic("unknown entry " + name)
 }
